@@ -3,11 +3,12 @@
     OCaml natives; N, positive and nat stay the extracted inductive types. *)
 Require Extraction.
 Require Import ExtrOcamlBasic.
-From RepeV Require Import Model.C01 Model.C02 Model.C11 Model.Peers Model.Fleet.
+From RepeV Require Import Model.C01 Model.C02 Model.C11 Model.Peers Model.Fleet Model.Limits.
 Separate Extraction
   Model.C01.model_C01 Model.C01.ok_C01 Model.C01.c01_wf
   Model.C02.model_C02 Model.C02.ok_C02
   Base.Word.bytes_ok
   Model.C11.model_trace Model.C11.ok_C11 Model.C11.ok_C13 Model.C11.hist_ok
   Model.Peers.model_C18 Model.Peers.ok_C18
-  Model.Fleet.model_C19 Model.Fleet.ok_C19 Model.Fleet.c19_obs_eqb Model.Fleet.addressed.
+  Model.Fleet.model_C19 Model.Fleet.ok_C19 Model.Fleet.c19_obs_eqb Model.Fleet.addressed
+  Model.Limits.model_C17_abs Model.Limits.ok_C17_abs Model.Limits.c17_obs_eqb Model.Limits.replacement_bound.
